@@ -135,7 +135,10 @@ type Run struct {
 	client   *http.Client
 }
 
-type heldLease struct{ lease, key string }
+type heldLease struct {
+	lease, key string
+	sent       time.Time // when the dequeue request that got this lease was SENT: the lease runs until sent + TTL at least
+}
 type sentMsg struct {
 	route, target string
 	digest        string
@@ -150,9 +153,16 @@ func (r *Run) emit(ev map[string]any) { r.events = append(r.events, ev) }
 
 func (r *Run) leaseTTL() string {
 	if r.Early {
-		return "2s"
+		return "3s"
 	}
 	return "1s"
+}
+
+func (r *Run) leaseTTLDur() time.Duration {
+	if r.Early {
+		return 3 * time.Second
+	}
+	return time.Second
 }
 
 func (r *Run) start(crash string) error {
@@ -267,6 +277,7 @@ func (r *Run) doOp(op WorkOp) {
 		r.emit(map[string]any{"ev": "Enq", "kind": "publish", "keys": keys, "acked": status == 200, "refused": status >= 400, "atomic": true, "status": status})
 	case "dequeue":
 		b, _ := json.Marshal(map[string]any{"batch": op.Batch, "lease_ttl": r.leaseTTL(), "max_wait": "0s"})
+		sentAt := time.Now()
 		status, body := r.post(r.ports.pull, "/pull/p/dequeue", b, map[string]string{"Authorization": "Bearer tok"})
 		keys := []any{}
 		if status == 200 {
@@ -280,7 +291,7 @@ func (r *Run) doOp(op WorkOp) {
 				for _, it := range resp.Items {
 					k := r.keyOfPayload(it.PayloadB64, "pull")
 					keys = append(keys, k)
-					r.held = append(r.held, heldLease{it.LeaseID, k})
+					r.held = append(r.held, heldLease{it.LeaseID, k, sentAt})
 				}
 			}
 		}
@@ -472,6 +483,9 @@ func (r *Run) Execute() ([]map[string]any, error) {
 	// restart on the same files; after the leases ran out everything unsettled on the pull route must be offered
 	restarted := false
 	offered := []any{}
+	// leases that the consumer still holds (granted by an answered dequeue, not settled since): certainly unexpired until sent + TTL
+	liveOffered := []any{}
+	liveHeld := 0
 	if opened {
 		poll := func() bool {
 			b, _ := json.Marshal(map[string]any{"batch": 50, "lease_ttl": "30s", "max_wait": "0s"})
@@ -499,9 +513,25 @@ func (r *Run) Execute() ([]map[string]any, error) {
 		if err := r.start(""); err == nil {
 			restarted = r.waitHealthy(25*time.Second) || r.waitHealthy(35*time.Second)
 			if restarted && r.Early {
-				// a consumer that polls while the killed process's leases (2s) are still running, and again afterwards
+				// a consumer that polls while the killed process's leases (3s) are still running, and again afterwards.
+				// A message whose lease is certainly still running when this poll is ANSWERED must not be in the answer
+				// (a restart is not an ack, nack or expiry).
+				n0 := len(offered)
 				poll()
-				time.Sleep(2200 * time.Millisecond)
+				answered := time.Now()
+				live := map[string]bool{}
+				for _, h := range r.held {
+					if h.sent.Add(r.leaseTTLDur()).After(answered) {
+						live[h.key] = true
+					}
+				}
+				liveHeld = len(live)
+				for _, k := range offered[n0:] {
+					if live[k.(string)] {
+						liveOffered = append(liveOffered, k)
+					}
+				}
+				time.Sleep(3200 * time.Millisecond)
 			}
 			if restarted {
 				for i := 0; i < 6 && poll(); i++ {
@@ -517,7 +547,7 @@ func (r *Run) Execute() ([]map[string]any, error) {
 		}
 	}
 	r.emit(map[string]any{"ev": "Restart", "opened": opened, "integrity": integrity, "counters_ok": countersOK, "rows": rows, "unknown_rows": unknown,
-		"restarted": restarted, "offered": offered, "pullkeys": pullkeys})
+		"restarted": restarted, "offered": offered, "pullkeys": pullkeys, "live_held": liveHeld, "live_offered": liveOffered})
 	return r.events, nil
 }
 
